@@ -170,18 +170,31 @@ CLAIMED = {
             "numerals are read up to the first bad character (model-vs-implementation only); the compressed-point sign bit is the low bit "
             "of the stored Montgomery form on non-pairing curves (the library's own convention, not SEC1).",
             "DESIGN.md §5 C07"),
-    "C09": ("Lean 4 proofs (every scalar recoding represents exactly its input with the promised digit set, length and sparsity; fuel "
-            "sufficiency) + correspondence of all number-theoretic functions against their mathematical definitions at w=64 and w=8",
-            "Proved in Lean for the model: bn_rec_win / slw / naf (any width) / reg / jsf return digit strings whose value is exactly the "
-            "input, with digits in the promised set, the promised length bounds and the w-NAF non-adjacency; the loops' fuel never runs out. "
-            "Reductions (basic, Barrett, Montgomery, pseudo-Mersenne), exponentiations, inverse, gcd / extended gcd variants (gcd and Bezout "
-            "identity checked on every output), lcm, Legendre/Jacobi, integer square root, polynomial evaluation/roots, primality tests and "
-            "prime generation are class C: compared with the mathematical definition evaluated in Lean on ~5800 structured lines per run "
-            "(negative and oversized operands, Lehmer-fallback pairs, Carmichael / strong-pseudoprime corpus), not proved.",
-            "Trusted: Lean kernel; recoding models tied by correspondence; primality ground truth = deterministic Miller-Rabin below 2^80, "
-            "supplied factors or C18-certified parameter primes above; 'rejects every composite' is corpus-only; bn_is_prime_basic is a "
-            "trial-division filter (composites may pass by design); even moduli are refused by the Montgomery-based bn_mxp.",
-            "DESIGN.md §5 C09"),
+    "C09": ("Lean 4 proofs (value-level models that mirror each C loop of the gcd / inverse / exponentiation / reduction / symbol / primality / root / "
+            "polynomial functions = their mathematical definitions for all inputs; every scalar recoding exact) + correspondence: the models are executed "
+            "on every presented line at w=64 and w=8 and must reproduce the library's output exactly (extended-gcd cofactors included)",
+            "Class A (model mirrors the C function, theorem model = specification for ALL inputs, model executed against the library on every line): "
+            "bn_rec_win / slw / naf / reg / jsf (value, digit set, length, sparsity); bn_gcd_basic (= bn_gcd), bn_gcd_binar, bn_gcd_dig = Int.gcd for all integers; "
+            "bn_gcd_ext_basic (= bn_gcd_ext), bn_gcd_ext_dig, bn_gcd_ext_binar: c = gcd >= 0 and a*d + b*e = c for all integers incl. zero / negative operands, every loop "
+            "proved to terminate within the model's fuel (binary variant: parity argument and termination of its cofactor-reduction loop); bn_lcm; bn_mod_inv (error iff "
+            "gcd != 1, otherwise THE inverse in [0, m)) and bn_mod_inv_sim (Montgomery's trick); bn_mxp_basic / slide (window table + bn_rec_slw scanning) / monty (ladder) / "
+            "dig: a^|b| mod m canonical, m = 1, b = 0, negative exponents through the inverse, even / non-positive modulus -> the error the code reports; bn_mxp_sim, bn_mxp_sim_few (every n) and bn_mxp_sim_lot; "
+            "bn_mxp_crt (both branches; RSA corollary = a^d mod pq); bn_smb_leg = legendreSym for odd primes; bn_smb_jac = Mathlib's jacobiSym for every one-digit odd "
+            "modulus and for the single-digit loop on unbounded naturals; bn_is_prime_rabin / basic / bn_is_prime / solov: every prime is accepted (completeness; a rejection "
+            "by trial division exhibits a divisor); bn_srt = Nat.sqrt; bn_mod_barrt = a mod m with at most 2 corrections; bn_mod_pre_monty / monty_basic / comba / conv / back "
+            "as REDC (canonical, r*R = a mod m); bn_mod_pmers for every m > 0; bn_evl (Horner) and bn_lag (coefficients of prod (X - a_i) mod b). PARTIAL theorems ('whenever the "
+            "model returns'; the model checks overflow / sign / fuel on every line instead of assuming them): bn_gcd_lehme / bn_gcd_ext_lehme (unimodular simulated matrix, "
+            "tracked cofactor + exact division), bn_smb_jac for multi-digit moduli (inner-step lemmas proved: no wrap, exact divisibility by 2^s, low-bit agreement, sign "
+            "repair; the per-iteration Jacobi invariant and termination are open: compared with the textbook symbol per line). Class C (specification only): bn_mod_basic "
+            "(C01's division), bn_is_prime_solov on composites, rejection of composites by the fixed-base tests (corpus: Carmichael numbers, strong pseudoprimes, prime squares, "
+            "close-prime products), prime generation; bn_gcd_ext_mid is modelled and tied with a weaker theorem (its vectors lie in the GLV lattice; shortness per curve is C18's). Two genuine defects are listed as known findings with "
+            "exact-value matchers: C09-ext-mod-1 (Barrett / pseudo-Mersenne reduction non-canonical for negative operands), C09-ext-mxp-1 (bn_mxp_sim ignores the sign of the "
+            "exponents). Tie: ~12000 structured lines per run (quick), ~212000 (thorough): every variant by name, boundary operands, every model branch tagged.",
+            "Trusted: Lean kernel; hand-written value-level models tied by correspondence (the digit layer below bn_add / bn_mul / bn_div / shifts is C01's); Montgomery "
+            "form inside the exponentiation models is taken by value; primality ground truth = deterministic Miller-Rabin below 2^80, supplied factors, C18-certified / "
+            "well-known primes above; 'rejects every composite' is corpus-only; bn_is_prime_basic is a trial-division filter (composites may pass by design); even moduli "
+            "are refused by the Montgomery-based bn_mxp; known-finding matchers are exact-value predicates.",
+            "DESIGN.md §5 C09; findings/C09-ext-notes.md"),
     "C14": ("Lean 4 proofs (streaming SHA-224/256/384/512 and BLAKE2s = FIPS 180-4 / RFC 7693 for every chunking; md_hmac/nist_kdf/md_xmd = "
             "RFC 2104 / MGF1-KDF2 / RFC 9380; FIPS 197 InvCipher o Cipher = id; table-driven rijndaelKeySetupEnc/Dec + rijndaelEncrypt/Decrypt = "
             "FIPS 197 Cipher / InvCipher; PKCS#7 + CBC round trip and rejection, concrete, over the table code) + tables/constants extracted from the "
